@@ -75,6 +75,22 @@ def mask_of_lin(l):
     return None
 
 
+def typestate_structs(F):
+    out = set()
+    for p, a in F.adts.items():
+        if not (a["local"] and a["kind"] == "struct"):
+            continue
+        for f in a["variants"][0]["fields"]:
+            t = F.types[f["ty"]] if isinstance(f["ty"], int) else f["ty"]
+            if isinstance(t, dict) and t["k"] == "adt" and t["path"].endswith("PhantomData"):
+                for x in t["args"]:
+                    if "t" in x:
+                        tt = F.types[x["t"]] if isinstance(x["t"], int) else x["t"]
+                        if isinstance(tt, dict) and tt["k"] == "param":
+                            out.add(p)
+    return out
+
+
 class Interp:
     def __init__(self, facts, models, invariants=None, max_depth=2, budget=20000, sink=None, opts=None):
         self.F = facts
@@ -96,6 +112,7 @@ class Interp:
         self.prov = None  # path -> [prefix, suffix] | "foreign"
         self.summaries = {}
         self.inv_targets = None
+        self.inv_used = set()
         self.trusted_ctx = frozenset()
         self.rootset = frozenset()
         self.inv_records = {}
@@ -378,12 +395,54 @@ class Interp:
         ftys = self.field_tys(t, 0)
         fields = tuple(self.materialize(st, ft, key + (i,), assume_inv) for i, ft in enumerate(ftys))
         v = VAdt(path, 0, fields, key, t)
-        if assume_inv and path in self.inv:
-            self.assume_invariant(st, path, key)
+        if assume_inv:
+            nm = self.inv_name(path, t)
+            if nm is not None and nm in self.inv:
+                self.assume_invariant(st, nm, key)
         return v
+
+    def typestate_structs(self):
+        """structs carrying a PhantomData<Param> marker: their invariants are kept per concrete instantiation"""
+        r = getattr(self.F, "_typestate", None)
+        if r is None:
+            r = typestate_structs(self.F)
+            self.F._typestate = r
+        return r
+
+    def ty_has_param(self, t, depth=0):
+        t = self.rt(t)
+        if isinstance(t, str) or depth > 6:
+            return False
+        k = t["k"]
+        if k in ("param", "alias", "other", "dyn"):
+            return True
+        if k == "adt":
+            return any("t" in a and self.ty_has_param(a["t"], depth + 1) for a in t["args"])
+        if k in ("ref", "ptr"):
+            return self.ty_has_param(t["to"], depth + 1)
+        if k in ("slice", "array"):
+            return self.ty_has_param(t["of"], depth + 1)
+        if k == "tuple":
+            return any(self.ty_has_param(x, depth + 1) for x in t["of"])
+        return False
+
+    def inv_name(self, path, t):
+        """name of the invariant of struct `path` at type t (None: unknown instantiation of a typestate struct)"""
+        if path not in self.typestate_structs():
+            return path
+        if not isinstance(t, dict) or t.get("k") != "adt":
+            return None
+        args = []
+        for a in t["args"]:
+            if "t" in a:
+                if self.ty_has_param(a["t"]):
+                    return None
+                args.append(self.tstr(a["t"]))
+        return "%s<%s>" % (path, ",".join(args))
 
     def assume_invariant(self, st, path, key):
         from .inv import instantiate_inv
+        self.inv_used.add(path)
         disj = instantiate_inv(self.inv[path], key)
         if not disj:
             if self.inv[path].get("bottom"):
@@ -628,11 +687,16 @@ class Interp:
             return
         from .inv import extract_disjuncts
         tgt = self.inv_targets[v.path]
+        nm = self.inv_name(v.path, v.ty)
+        if nm is None:
+            # construction at a generic / unknown instantiation of a typestate struct: every instantiation gives up
+            self.inv_records.setdefault(v.path + "<*>", []).append([])
+            return
         try:
             conjs = extract_disjuncts(self, st, v, drop_fields=tgt)
         except Infeasible:
             return
-        self.inv_records.setdefault(v.path, []).extend(conjs)
+        self.inv_records.setdefault(nm, []).extend(conjs)
         if any(len(c) == 0 for c in conjs):
             self.sink.events.append(("inv_empty", v.path, st.frames[-1].body["path"], self.cur_sp,
                                      repr(v)[:300], "; ".join(show_lin(f) for f in st.facts[:12])))
@@ -1473,6 +1537,69 @@ class Interp:
         self.entered.add(body["path"])
         return fr
 
+    def strip_refs(self, t):
+        t = self.rt(t)
+        while isinstance(t, dict) and t["k"] == "ref":
+            t = self.rt(t["to"])
+        return t
+
+    def typestate_flows(self):
+        """(fn, arg index) -> names of the concrete typestate instantiations handed to a parameter whose declared type
+        is a typestate struct at a generic instantiation (collected over all call sites, through generic callers)"""
+        r = getattr(self.F, "_ts_flows", None)
+        if r is not None:
+            return r
+        ts = self.typestate_structs()
+        flows, edges = {}, []
+        if ts:
+            class Shim:
+                pass
+            for b in self.F.body_list:
+                sh = Shim()
+                sh.body = b
+                for blk in b["blocks"]:
+                    t = blk["term"]
+                    if t["t"] != "call" or "indirect" in t["callee"]:
+                        continue
+                    P = t["callee"].get("res") if t["callee"].get("res_local") else None
+                    cb = self.F.bodies.get(P) if P else None
+                    if cb is None:
+                        continue
+                    for i in range(min(cb["arg_count"], len(t["args"]))):
+                        pt = self.strip_refs(cb["locals"][i + 1][0])
+                        if not (isinstance(pt, dict) and pt["k"] == "adt" and pt["path"] in ts) or \
+                                self.inv_name(pt["path"], pt) is not None:
+                            continue
+                        at = self.operand_type(sh, t["args"][i])
+                        at = self.strip_refs(at) if at is not None else None
+                        if not (isinstance(at, dict) and at["k"] == "adt" and at["path"] == pt["path"]):
+                            flows.setdefault((P, i), set()).add(None)  # unknown source: no assumption possible
+                            continue
+                        nm = self.inv_name(at["path"], at)
+                        if nm is not None:
+                            flows.setdefault((P, i), set()).add(nm)
+                        else:
+                            src = None
+                            for j in range(b["arg_count"]):
+                                jt = self.strip_refs(b["locals"][j + 1][0])
+                                if isinstance(jt, dict) and jt["k"] == "adt" and self.tstr(jt) == self.tstr(at):
+                                    src = (b["path"], j)
+                            if src is None:
+                                flows.setdefault((P, i), set()).add(None)
+                            else:
+                                edges.append(((P, i), src))
+            changed = True
+            while changed:
+                changed = False
+                for dst, src in edges:
+                    a = flows.setdefault(dst, set())
+                    n = len(a)
+                    a |= flows.get(src, set())
+                    if len(a) != n:
+                        changed = True
+        self.F._ts_flows = flows
+        return flows
+
     def analyze_root(self, body, assume_inv=True):
         """analyse function body standalone with unconstrained (invariant-respecting) parameters"""
         self.root = body
@@ -1485,9 +1612,37 @@ class Interp:
                 args.append(self.materialize(st, t, ("arg", path, i), assume_inv))
             except Infeasible:
                 return
-        self.new_frame(st, body, args, None, None)
+        starts = [st]
+        if assume_inv and self.typestate_structs():
+            # parameters typed by a typestate struct at a generic instantiation: one start state per concrete
+            # instantiation that is handed to this function anywhere in the crate
+            flows = self.typestate_flows()
+            for i in range(body["arg_count"]):
+                names = flows.get((path, i))
+                if not names or None in names:
+                    continue
+                v = args[i]
+                if isinstance(v, VRef):
+                    v = self.load(st, ("place", v.fid, v.local, v.projs))
+                if not (isinstance(v, VAdt) and v.key is not None):
+                    continue
+                nxt = []
+                for s0 in starts:
+                    for nm in sorted(names):
+                        if nm not in self.inv:
+                            nxt.append(s0.fork())
+                            continue
+                        s1 = s0.fork()
+                        try:
+                            self.assume_invariant(s1, nm, v.key)
+                        except Infeasible:
+                            continue
+                        nxt.append(s1)
+                starts = nxt
+        for s0 in starts:
+            self.new_frame(s0, body, args, None, None)
         try:
-            self.explore([st], None)
+            self.explore(starts, None)
         except AnalysisAbort as e:
             self.sink.events.append(("abort", path, str(e)))
 
@@ -1581,6 +1736,7 @@ class Interp:
             pass
 
     field_write_hook = None
+    ret_hook = None
 
     def model_copy(self, st, src, dst, cnt):
         n = cnt.lin if isinstance(cnt, VInt) else None
@@ -1673,10 +1829,49 @@ class Interp:
                     for x in self.walk_lenerrs(f, depth + 1):
                         yield x
 
+    def int_range(self, st, lin, cap=1 << 40):
+        """(lo, hi) constants with st |= lo <= lin <= hi, hi <= cap; None when no such bound is entailed"""
+        if lin.is_const():
+            return (lin.c, lin.c)
+        if len(lin.t) > 8:
+            return None
+        if not st.entails(Lin.const(cap) - lin) or not st.entails(lin):
+            return None
+        a, b = 0, cap
+        # exponent first, then exact
+        k = 0
+        while (1 << k) < cap and not st.entails(Lin.const(1 << k) - lin):
+            k += 1
+        b = min(cap, 1 << k)
+        a = 0 if k == 0 else (1 << (k - 1))
+        while a < b:
+            m = (a + b) // 2
+            if st.entails(Lin.const(m) - lin):
+                b = m
+            else:
+                a = m + 1
+        hi = b
+        a, b = 0, hi
+        while a < b:
+            m = (a + b + 1) // 2
+            if st.entails(lin - m):
+                a = m
+            else:
+                b = m - 1
+        return (a, hi)
+
     def record_provenance(self, st, fr, rv):
         body = fr.body
         if self.prov is None:
             self.prov = {}
+        if isinstance(rv, VInt) and self.prov.get("__range__") != "unbounded" and \
+                self.rt(body["locals"][0][0]) in ("usize", "u32", "u64"):
+            rg = self.int_range(st, rv.lin)
+            if rg is None:
+                self.prov["__range__"] = "unbounded"
+            else:
+                cur = self.prov.get("__range__")
+                self.prov["__range__"] = rg if cur is None else (min(cur[0], rg[0]), max(cur[1], rg[1]))
         # which length sources can a returned LenError carry
         for le in self.walk_lenerrs(rv):
             cur = self.prov.setdefault("__lensrc__", set())
@@ -2078,6 +2273,8 @@ class Interp:
             self.cur_site = site
             self.cur_sp = sp
             self.cur_expn = expn
+            if self.ret_hook is not None:
+                self.ret_hook(st2, f2, val, callee, dty, site, sp)
             cur = self.resolve_place(st2, f2, _dest)
             self.store(st2, cur, val)
             f2.block = _target
@@ -2092,7 +2289,9 @@ class Interp:
             body0 = self.F.bodies.get(path) if callee.get("res_local") else None
             will_inline = body0 is not None and (len(st.frames) <= self.max_depth or body0.get("unsafe")) and \
                 self.models.lookup(path, decl, callee) is None
-            if not will_inline:
+            if not will_inline or (self.rootset and path in self.rootset):
+                # (an inlined callee that is analysed as a root itself assumes the invariants of its parameters, and
+                #  constructions below it are left to that analysis: what is handed to it must be recorded here)
                 for a in args:
                     if isinstance(a, (VAdt, VTuple)):
                         self.record_escaping(st, a)
@@ -2199,6 +2398,12 @@ class Interp:
                         al[("ret", rid)] = (args[i], sm)
                         st.notes["alias"] = al
             v = self.materialize(st, dty, ("ret", rid))
+            if callee_body is not None and self.summaries and isinstance(v, VInt):
+                sm = self.summaries.get(callee_body["path"])
+                rg = sm.get("__range__") if sm else None
+                if rg:
+                    st.add_ge0(v.lin - rg[0])
+                    st.add_ge0(Lin.const(rg[1]) - v.lin)
         return ret_k(st, v)
 
     def havoc_through(self, st, a, depth=0):
